@@ -193,7 +193,13 @@ def run(ctx):
     cases = [dict(case_of_path(p), supply_scale=[1, 2.0 ** -40, 2.0 ** 40][k % 3]) for k, p in enumerate(paths)]
     for _ in range(8000 if thorough else 1500):
         cases.append(random_case(rnd))
-    traces = [execute(c) for c in cases]
+    def safe(c):
+        try:
+            return execute(c)
+        except Exception as e:  # noqa: the composite raised outside a read or write (children, append ...)
+            return {"kind": c["kind"], "events": [{"e": "Read", "demand": OFFGRID, "supply": OFFGRID, "u": OFFGRID, "a": OFFGRID, "nchildren": 0}], "raised": "%s: %s" % (type(e).__name__, str(e)[:120])}
+
+    traces = [safe(c) for c in cases]
     verdicts, tstates = traceval.validate("CompositeTrace", traces, DUMMY, timeout=3000)
     ctx.extra["trace_states"] = tstates
     judge(ctx, cases, traces, verdicts)
